@@ -45,6 +45,7 @@ def run(ctx: Ctx):
     check_x_family(ctx)
     check_owner(ctx)
     check_ancilla_api(ctx)
+    check_mark_operands(ctx)
 
 
 def _gate_loop(fi: FuncInfo) -> ast.For:
@@ -183,6 +184,47 @@ def check_x_family(ctx: Ctx, rule="X-FAMILY"):
             ctx.check(not bad, rule, m, "emits only x/cx/ccx/mcx", f"emits {sorted(set(emitted))}", f"emits {[b[0] for b in bad]}: a reversed replay of a non-self-inverse / non-classical gate is not an uncompute, and the result is no longer a xor-accumulation", bad[0][1] if bad else m.node)
     if n < 5:
         raise AnchorError(IC, f"only {n} emitting synthesis routines found (6 confirmed by hand)")
+
+
+def check_mark_operands(ctx: Ctx):
+    """the synthesis routines mark the scratch qubits holding their operands on EVERY path that consumed them, so that
+    the per-expression uncompute returns them to zero (an unmarked operand ancilla is only met by the final replay,
+    which undoes at most its last gate)"""
+    ic = ctx.repo.cls(IC)
+    for name in ("compile_and", "compile_or"):
+        m = ic.methods.get(name)
+        if m is None:
+            raise AnchorError(f"{IC}.{name}", "not found")
+        body = m.body
+        emit = [i for i, s in enumerate(body) if any(dotted(c.func) in ("qc.mcx", "qc.cx") for c in q.calls(s))]
+        marks = [i for i, s in enumerate(body) if any(dotted(c.func) == "qc.mark_ancilla" for c in q.calls(s))]
+        if not emit or not marks:
+            raise AnchorError(m.short, "gate emission / operand marking not found at the top level of the routine")
+        mi = marks[0]
+        ms = body[mi]
+        over = None
+        for n in ast.walk(ms):
+            if isinstance(n, (ast.ListComp, ast.GeneratorExp)):
+                over = norm(n.generators[0].iter)
+            elif isinstance(n, ast.For):
+                over = norm(n.iter)
+        mcx = [c for s in body for c in q.calls(s) if dotted(c.func) == "qc.mcx"]
+        same_list = bool(mcx) and over == norm(mcx[0].args[0])
+        early = [s for s in body[emit[0] : mi] if any(isinstance(x, ast.Return) for x in ast.walk(s))]
+        cond = not isinstance(ms, (ast.Expr, ast.For))
+        ctx.check(same_list and not early and not cond and mi > emit[-1], "TS-ANC", m, "operand qubits are marked for uncomputation on every path after the gates are emitted", f"mark_ancilla over `{over}` is an unconditional statement after the emission", f"between the gate emission and `mark_ancilla` over `{over}` the routine can return ({[norm(e)[:40] for e in early]}) or the marking is conditional: the scratch qubits holding the operands are then never uncomputed by the per-expression pass", ms)
+    cn = ic.methods.get("compile_not")
+    br = [n for n in walk_no_nested(cn.node) if isinstance(n, ast.Call) and dotted(n.func) == "qc.cx"]
+    ok = False
+    if br:
+        blk = cn.pm.get(cn.pm.get(br[0]))  # Expr -> enclosing block owner
+        stmts = getattr(blk, "orelse", []) if isinstance(blk, ast.If) and any(q.contains(s, br[0]) for s in blk.orelse) else getattr(blk, "body", [])
+        idx = q.stmt_index(stmts, br[0])
+        later = stmts[idx:] if idx is not None else []
+        pos_mark = next((i for i, s in enumerate(later) if any(dotted(c.func) == "qc.mark_ancilla" for c in q.calls(s))), None)
+        pos_ret = next((i for i, s in enumerate(later) if isinstance(s, ast.Return)), None)
+        ok = pos_mark is not None and (pos_ret is None or pos_mark < pos_ret) and isinstance(later[pos_mark], ast.Expr)
+    ctx.check(ok, "TS-ANC", cn, "the operand of a copied negation is marked before returning", "", "compile_not copies its operand into the destination without marking the operand's scratch qubit for uncomputation on that path", cn.node)
 
 
 def check_owner(ctx: Ctx):
